@@ -30,7 +30,7 @@ def _capdict(it, **vals):
     return {k: mk_obj(it, I, "Capture", element=None, capture=k, names=[k], values=[v]) for k, v in vals.items()}
 
 
-@unit("Overlay.tweak-rewrite", ["C04", "C16"], [O + ":Overlay.tweak", O + ":Overlay.rewrite", O + ":BaseOverlay.__init__", O + ":BaseOverlay.add",
+@unit("Overlay.tweak-rewrite", ["C04", "C16", "C05", "C02"], [O + ":Overlay.tweak", O + ":Overlay.rewrite", O + ":BaseOverlay.__init__", O + ":BaseOverlay.add",
                                          O + ":BaseOverlay.fork", O + ":Overlay.tweaking", O + ":Overlay.rewriting", I + ":Immediate.__init__"])
 def u_tweak_rewrite(c):
     """tweak({sel: v}) adds one Immediate per selector whose intercept ignores the captures and returns exactly v;
@@ -99,6 +99,21 @@ def u_tweak_rewrite(c):
             st, out = run(it, hs[i].fields["_intercept"], [caps])
             c.prove(f"rewrite-many/rule{i}-calls-the-function-given-for-its-own-selector", st == "ok" and seen == [i])
     else:
+        # fork: a NEW overlay of the same class with the same handlers, sharing no mutable state with the original -- what is added to
+        # the fork (tapping / tweaking / rewriting on a long-lived overlay instance) never reaches the original, so it ends with the
+        # with-block it was made for (C05: a later activation of the original starts from a clean state)
+        k = c.choose(3, "handlers-before-fork")
+        olds = [SymObj(f"old-handler{i}", Val.ref(z3.IntVal(c.new_id()))) for i in range(k)]
+        src = it.call(Ov, list(olds), {})
+        st, fk = run(it, it.getattr(src, "fork"), [])
+        ok = st == "ok" and isinstance(fk, Obj) and fk is not src and fk.cls is Ov
+        c.prove("fork/new-overlay-of-the-same-class-with-the-same-handlers", ok and len(fk.fields["handlers"]) == k and all(a is b for a, b in zip(fk.fields["handlers"], olds)))
+        c.prove("fork/handler-list-not-shared-with-the-original", ok and fk.fields["handlers"] is not src.fields["handlers"])
+        if ok:
+            extra = SymObj("added-to-the-fork", Val.ref(z3.IntVal(c.new_id())))
+            st, _ = run(it, it.getattr(fk, "add"), [extra])
+            c.prove("fork/adding-to-the-fork-leaves-the-original-as-it-was", st == "ok" and len(src.fields["handlers"]) == k and all(a is b for a, b in zip(src.fields["handlers"], olds))
+                    and len(fk.fields["handlers"]) == k + 1)
         st, r = run(it, it.getattr(base, "tweaking"), [{sel: v}])
         c.prove("tweaking/new-overlay-original-untouched", st == "ok" and r is not base and base.fields["handlers"] == [] and len(r.fields["handlers"]) == 1)
         st, r2 = run(it, it.getattr(Ov, "tweaking"), [{sel: v}])
@@ -546,3 +561,48 @@ def u_find_eval_env(c):
         ok = isinstance(r, Obj) and r.cls.name == "DictPile"
         c.prove("caller-scope/locals-then-globals-then-builtins", ok and list(r.fields["dicts"])[0] is fr.attrs["f_locals"] and list(r.fields["dicts"])[1] is fr.attrs["f_globals"]
                 and len(r.fields["dicts"]) == 3, note=repr(r))
+
+
+@unit("select-environment", ["C10", "C13", "C12"], [S + ":select"])
+def u_select_environment(c):
+    """select(s, env=E): when the caller gives an environment -- ANY mapping, the empty one included -- the symbols of the selector are
+    resolved in it and nowhere else (a function the environment does not define is refused even when the caller's scope has it); the
+    caller's scope is consulted only when no environment is given.  A selector object is returned as it is."""
+    it = Interp(c)
+    kind = c.choose(4, "env")  # 0 not given, 1 the empty dictionary, 2 a dictionary with entries, 3 a resolver function
+    found = SymObj("caller-scope", Val.ref(z3.IntVal(c.new_id())))
+    parsed = SymObj("parsed", Val.ref(z3.IntVal(c.new_id())))
+    resolved = SymObj("resolved", Val.ref(z3.IntVal(c.new_id())))
+    env = [None, {}, {"f": 1}, SummaryFn("resolver", lambda it_, a, k: None)][kind]
+    seen = {"find": 0, "resolve": [], "verify": 0}
+
+    def p_find(it_, f, a, k):
+        seen["find"] += 1
+        seen["skip"] = list(k.get("skip", a[2] if len(a) > 2 else []))
+        return found
+
+    it.policies[S + ":_find_eval_env"] = p_find
+    it.policies[S + ":_select"] = lambda it_, f, a, k: parsed
+    it.policies[S + ":_resolve"] = lambda it_, f, a, k: (seen["resolve"].append((a[0], a[1])), resolved)[1]
+    it.policies[S + ":verify"] = lambda it_, f, a, k: seen.__setitem__("verify", seen["verify"] + 1)
+    frames = []
+    sysmod = SymObj("sys", Val.ref(z3.IntVal(c.new_id())), attrs={"_getframe": SummaryFn("_getframe", lambda it_, a, k: (
+        frames.append(a[0]), SymObj("frame", Val.ref(z3.IntVal(c.new_id()))))[1])}, closed=True)
+    it.import_hook = lambda mod, name: sysmod if (mod, name) == ("sys", None) else None
+    strict = bool(c.choose(2, "strict"))
+    st, r = run(it, it.get_global(S, "select"), ["f > x"], dict(**({} if kind == 0 else {"env": env}), strict=strict, skip_modules=["usertool"]))
+    c.prove("no-raise", st == "ok", note=repr(r))
+    if st != "ok":
+        return
+    c.prove("returns-the-resolved-selector", r is resolved)
+    c.prove("resolved-exactly-once-from-the-parsed-text", len(seen["resolve"]) == 1 and seen["resolve"][0][0] is parsed)
+    if kind == 0:
+        c.prove("no-environment-given/caller-scope-searched-once", seen["find"] == 1 and seen["resolve"][0][1] is found)
+        c.prove("no-environment-given/search-starts-at-the-caller-of-select", frames == [1], note=str(frames))
+        c.prove("no-environment-given/ptera-contextlib-and-the-given-modules-skipped", seen.get("skip") == ["ptera", "contextlib", "usertool"], note=str(seen.get("skip")))
+    else:
+        c.prove("environment-given/names-resolved-in-it-and-nowhere-else", seen["find"] == 0 and seen["resolve"][0][1] is env,
+                note=f"env kind {kind}: caller scope searched {seen['find']} time(s)")
+    c.prove("strict-verifies-the-result", seen["verify"] == (1 if strict else 0))
+    st, r = run(it, it.get_global(S, "select"), [resolved], {})
+    c.prove("selector-object-returned-unchanged", st == "ok" and r is resolved and len(seen["resolve"]) == 1)
